@@ -218,6 +218,12 @@ pub enum Op {
         /// 0 = drop the future without ever polling it; 1 = yield once, then await; n>=2 = sleep n ms, then await
         defer: u64,
     },
+    /// the same for stop(): a stop future that is created and dropped unpolled (the losing branch of a select!) has requested
+    /// nothing - the actor goes on, and a later stop() does stop it
+    StopDeferred {
+        slot: usize,
+        defer: u64,
+    },
 }
 
 #[derive(Clone, Debug)]
